@@ -110,9 +110,29 @@ def generate(tier):
             alph = 'o' if (sh.kind == 'struct' and cfg != 'C') else 'om'
             for assign in verywide_assignments(sh, alph):
                 cases.append(build(sh, assign, cfg))
+    # two named variants that use the same field names at different positions (V0 {f0, f1}, V1 {f1, f0})
+    for sh in [S.Shape('enum', [S.Fields('n', 2), S.Fields('n', 2)]), S.Shape('enum', [S.Fields('t', 1), S.Fields('n', 2)]), S.Shape('enum', [S.Fields('n', 1), S.Fields('u'), S.Fields('n', 3)])]:
+        for assign in assignments(sh, 'om'):
+            for cfg in ('C', 'CC'):
+                with S.naming('rot'):
+                    c = build(sh, assign, cfg)
+                c.key += '|rot'
+                cases.append(c)
+    from .common import zoo_cases
+    cases += zoo_cases('C07', 'Clone', 'Debug, PartialEq', 'Debug, PartialEq, Clone',
+                       '    for (i, (a, _)) in vs.iter().enumerate() {\n        let c = a.clone();\n'
+                       '        r.ck(c == *a, 0, &|| format!("value #{}: the clone {:?} differs from the source {:?}", i, c, a));\n'
+                       '        for (j, (b, _)) in vs.iter().enumerate() {\n            let mut d = a.clone();\n            d.clone_from(b);\n'
+                       '            r.ck(d == *b, 1, &|| format!("values #{} <- #{}: clone_from gives {:?}, expected {:?}", i, j, d, b));\n        }\n    }\n')
     from .common import rawify
     for c in [x for x in cases if x.key.startswith('C07|C|s:n2|') or x.key.startswith('C07|C|e:n2,n1|') or x.key.startswith('C07|CC|e:n1,n2|')]:
         r_ = rawify(c)
+        if r_:
+            cases.append(r_)
+    from .common import underscorify
+    for c in [x for x in cases if (x.key.startswith('C07|C|s:n2|') or x.key.startswith('C07|C|e:n2,n1|') or x.key.startswith('C07|CC|e:n1,n2|') or x.key.startswith('C07|C|s:n3|')
+                                   or x.key.startswith('C07|CC|s:n2|')) and '|raw' not in x.key]:
+        r_ = underscorify(c)
         if r_:
             cases.append(r_)
     # unions (fields must be Copy; only `Copy, Clone` is documented)
